@@ -112,6 +112,10 @@ func checkCmd(args []string) {
 		}
 	}
 	start := time.Now()
+	if _, ok := monitors[prop]; ok {
+		monitorCheck(prop, tier, seed, start)
+		return
+	}
 	timeout := 20 * time.Second
 	cross := false
 	if tier == "thorough" {
@@ -284,6 +288,42 @@ func checkCmd(args []string) {
 		}
 		funcs = append(funcs, fmt.Sprintf("%d pinned format constants/tables (contracts/format_constants.json)", n))
 	}
+	// C03: panic containment of the goroutines spawned on the decoding side
+	if prop == "C03" {
+		for _, c := range goContainedObligations(ld) {
+			if encoderSide(c.Name) {
+				continue
+			}
+			nObl++
+			present[c.Name] = "unsat"
+			funcs = append(funcs, "go statement: "+c.Name)
+			if c.OK {
+				nDis++
+				byBackend["go/ssa structural rule (recover-first)"]++
+				reports = append(reports, oblReport{c.Name, "go-contained", "unsat", "ssa-structural", 0, fmt.Sprintf("%s:%d", filepath.Base(c.Pos.Filename), c.Pos.Line)})
+				continue
+			}
+			handled := false
+			for _, k := range known {
+				if k.Status == "known" && k.Property == prop && k.Obligation == c.Name {
+					fmt.Printf("KNOWN-FINDING: property=%s %s %s\n", prop, c.Name, k.What)
+					handled = true
+				}
+			}
+			if handled {
+				continue
+			}
+			violations++
+			path := filepath.Join(verifDir(), "replay", fmt.Sprintf("%s-%s.json", prop, mangle(c.Name)))
+			rf := map[string]any{"property": prop, "obligation": c.Name, "what": "a panic can leave a function run by a go statement: " + c.Detail,
+				"source": fmt.Sprintf("%s:%d", c.Pos.Filename, c.Pos.Line), "failing_input": nil,
+				"note": "decided on the SSA form (no solver): the spawned function neither defers a recovering function first nor only calls functions that do", "rerun": "cd /verif && ./check C03 quick"}
+			b, _ := json.MarshalIndent(rf, "", " ")
+			os.WriteFile(path, b, 0o644)
+			fmt.Printf("VIOLATION property=%s replay=%s obligation=%s (%s) no-failing-input-found\n", prop, path, c.Name, c.Detail)
+		}
+		assumptions["go-contained: channel operations, sync.WaitGroup calls and nil dereferences inside spawned functions are not considered panic sources; the recovering handler itself is assumed not to panic"] = true
+	}
 	for _, g := range generatorFailures {
 		report("generator:"+g, "the verification conditions of this function could not be generated: "+g, nil)
 	}
@@ -310,7 +350,7 @@ func checkCmd(args []string) {
 		}
 		samples = append(samples, r)
 	}
-	var asm []string
+	asm := []string{}
 	for a := range assumptions {
 		asm = append(asm, a)
 	}
@@ -454,4 +494,14 @@ func generateLemma(ld *Loaded, cs *Contracts, lm *Lemma) (*Ctx, *Obligation) {
 	o := cx.oblige("lemma", lm.Name, tTrue, g, ex.pos(0), lm.Props)
 	o.Name = "lemma." + lm.Name
 	return cx, o
+}
+
+// encoderSide: go statements that only run while compressing are not part of C03.
+func encoderSide(name string) bool {
+	for _, k := range []string{"Writer.", "Compressor", "fileCompress", "Forward", "forward", "Encod", "encod"} {
+		if strings.Contains(name, k) {
+			return true
+		}
+	}
+	return false
 }
